@@ -16,7 +16,7 @@ CFG_T = """SPECIFICATION TSpec
 CONSTANTS
   IdSeqs = {}
   Names = {"tau", "my_p", "sources"}
-  Shapes = {"scalar", "len1", "len2"}
+  Shapes = {"scalar", "len1", "len2", "len12"}
   Paths = {"df", "pt", "csv", "json"}
   MaxParams = 3
   ScalarOK = FALSE
@@ -25,7 +25,7 @@ INVARIANT Conforms
 INVARIANT AddRules
 INVARIANT Covered
 """
-SIZE = {"scalar": 0, "len1": 1, "len2": 2}
+SIZE = {"scalar": 0, "len1": 1, "len2": 2, "len12": 12}
 
 
 def value(rnd, shape):
@@ -48,14 +48,19 @@ def build(ids, decls, rnd):
     return ip, vals
 
 
-def add_rules(ids, decls, rnd):
-    """Additions that must be refused / accepted (C16 second sentence)."""
-    ip, _ = build(ids, decls, rnd)
+def add_rules(ids, decls, rnd, ip=None):
+    """Additions that must be refused / accepted (C16 second sentence); on a fresh container or on a given one."""
+    if ip is None:
+        ip, _ = build(ids, decls, rnd)
+    else:
+        ids = list(ip._indices)
+        decls = [{"name": n, "shape": shape_of(v)} for n, v in ip._individual_parameters[ids[0]].items()]
+    n0 = len(ip._indices)
     good = {dc["name"]: value(rnd, dc["shape"]) for dc in decls}
     first = decls[0]
     wrong_shape = dict(good)
     wrong_shape[first["name"]] = [1.0, 2.0, 3.0] if first["shape"] != "scalar" else [1.0]
-    bads = [(ids[0], good), (17, good), (None, good), ("new1", "not-a-dict"), ("new2", dict(good, **{first["name"]: "text"})),
+    bads = [(ids[0], good), (ids[-1], good), (17, good), (None, good), ("new1", "not-a-dict"), ("new2", dict(good, **{first["name"]: "text"})),
             ("new3", dict(good, **{first["name"]: None})), ("new4", wrong_shape), ("new5", {}),
             ("new6", dict(good, extra=1.0)), ("new7", dict(good, **{first["name"]: {"a": 1}}))]
     ok = True
@@ -69,14 +74,14 @@ def add_rules(ids, decls, rnd):
             ok = False
     try:
         ip.add_individual_parameters("fresh_id", {k: (np.array(v) if isinstance(v, list) else v) for k, v in good.items()})
-        ok = ok and ip._indices[-1] == "fresh_id" and len(ip._indices) == len(ids) + 1
+        ok = ok and ip._indices[-1] == "fresh_id" and len(ip._indices) == n0 + 1 and len(ip._individual_parameters) == n0 + 1
     except Exception:
         ok = False
     return ok
 
 
 def run_case(ids, decls, path, rnd, tmp):
-    rec = {"ids": list(ids), "decls": decls, "path": path, "out": [], "ids_out": [], "values_ok": False}
+    rec = {"ids": list(ids), "decls": decls, "path": path, "out": [], "ids_out": [], "values_ok": False, "adds_after_ok": False}
     with warnings.catch_warnings():
         warnings.simplefilter("ignore")
         rec["adds_ok"] = bool(add_rules(ids, decls, rnd))
@@ -113,16 +118,19 @@ def run_case(ids, decls, path, rnd, tmp):
             # shapes consistent over individuals
             ok = ok and [shape_of(v) for v in got.values()] == [d["shape"] for d in rec["out"]]
     rec["values_ok"] = bool(ok)
+    with warnings.catch_warnings():
+        warnings.simplefilter("ignore")
+        rec["adds_after_ok"] = bool(add_rules(None, None, rnd, ip=out)) if out._indices else False
     return rec
 
 
 def run(ctx):
     q = ctx.quick
-    ctx.rule = ("TLC enumerates every container (3 identifier sequences incl. numeric-looking ids, 1-2 parameters out of 3 names "
-                "x 3 shapes) x 4 conversion paths of IndParams.tla and checks Lossless on the intended design and "
+    ctx.rule = ("TLC enumerates every container (5 identifier sequences incl. all-numeric-looking ids in non-canonical form, 1-2 parameters out of 3 names "
+                "x 4 shapes incl. 12 components) x 4 conversion paths of IndParams.tla and checks Lossless on the intended design and "
                 "LosslessExceptNamed on the as-built one; every case is built as a real IndividualParameters with seeded values, "
                 "converted there and back, and TLC compares status, names, shapes, identifiers and value equality with "
-                "Expected (IndParamsTrace.tla), checks the addition rules (10 refusals, 1 acceptance per case) and that the "
+                "Expected (IndParamsTrace.tla), checks the addition rules (11 refusals, 1 acceptance per case, on the built container and again on the converted one) and that the "
                 "records cover the space. Distinct = distinct (ids, declarations, path).")
     ctx.assumptions = ["values equal exactly through table / json, to 1e-12 relative through csv text (pandas fast float parser), to 1e-6 relative through float32 tensors"]
     tmp = os.path.join(ctx.tmp, "ipar")
